@@ -327,6 +327,40 @@ def reduce_(case, ctx):
             raise Violation("C06.overlap", f"overlap(fields)={ov} but reduce produced {len(out)} fields")
 
 
+def _enum_cascade(tier):
+    """every order of the four cascading fields x every orientation x filler placement (complete: 24 x 8 x 3)"""
+    base = [(0, 1, 0, 9), (0, 9, 0, 1), (5, 6, 5, 14), (0, 1, 12, 13)]
+    cells = [(r, c) for r in range(0, 18, 3) for c in range(-18, 17, 4)]
+    for o in range(8):
+        boxes = list(base)
+        if o & 1:
+            boxes = [(9 - b[1], 9 - b[0], b[2], b[3]) for b in boxes]
+        if o & 2:
+            boxes = [(b[0], b[1], 14 - b[3], 14 - b[2]) for b in boxes]
+        if o & 4:
+            boxes = [(b[2], b[3], b[0], b[1]) for b in boxes]
+        for perm in itertools.permutations(range(4)):
+            for where in ("before", "after", "around"):
+                yield {"boxes": [list(boxes[i]) for i in perm], "where": where, "nfill": 29 + (o + sum(perm[:2])) % 9,
+                       "cells": [list(c) for c in cells], "orientation": o}
+
+
+@enum("C06", "cascade_enum", _enum_cascade,
+      "collections of 33-41 fields holding the four-field bounding-box cascade in EVERY order (24) and orientation (8), "
+      "fillers before / after / around: reduce total, disjointness, boundary (complete enumeration, 576 cases)",
+      exhaustive_tiers=("quick", "thorough"))
+def cascade_enum(case, ctx):
+    def rect(r0, r1, c0, c1, k):
+        h, w = r1 - r0 + 1, c1 - c0 + 1
+        return {"data": _vals((h, w), k), "offset": [r0 + h // 2, c0 + w // 2]}
+    four = [rect(b[0] - 18, b[1] - 18, b[2] - 18, b[3] - 18, i) for i, b in enumerate(case["boxes"])]
+    fill = [rect(r, r, c, c + 1, 5 + i) for i, (r, c) in enumerate(case["cells"][:case["nfill"]])]
+    fields = fill + four if case["where"] == "before" else four + fill if case["where"] == "after" else \
+        fill[:len(fill) // 2] + four + fill[len(fill) // 2:]
+    ctx.tag("cascade_order_enumerated", "where:" + case["where"])
+    reduce_(fields, ctx)
+
+
 # --- insert ----------------------------------------------------------------------
 
 @st.composite
